@@ -29,7 +29,7 @@ def literals(bs):
     return re.findall(rb"[ -~]{2,}", bytes(bs))
 
 
-def check(ctx):
+def _check_own(ctx):
     prog = ctx.prog
     R = Roles(prog)
     # ---------------------------------------------------------------- (1) file names
@@ -234,7 +234,7 @@ def check(ctx):
                     if st["s"] == "assign" and st["lhs"]["p"] and st["lhs"]["p"][-1] == "f:" + FILEDBINNER + "." + col:
                         ctx.check(False, "registry-grow-only", "%s:assign:%s" % (fn.name, col),
                                   "%s replaces the registry %s" % (short(fn.id), col), where=where(fn, bb))
-    ctx.floor("registry-grow-only", "BTreeMap calls on map registries", reg_calls, 20)
+    ctx.floor("registry-grow-only", "BTreeMap calls on map registries", reg_calls, 15)
     ctx.ok("registry-grow-only", "all-sites", "every BTreeMap call on a registry is one of %s" % sorted(NON_REMOVING))
 
     # ---------------------------------------------------------------- (4) shared state
@@ -272,3 +272,7 @@ def _strip_to_string(prog, fn, os_):
         else:
             out.append(o)
     return out
+
+
+def check(ctx):
+    _check_own(ctx)
